@@ -253,19 +253,27 @@ impl StringPool {
         self.is_modified = true;
         // TODO: change the internal representation of StringPool to make this
         // more efficient.
-        for (index, &mut (ref mut st, ref mut refcount)) in
+        // Prefer an entry that already holds the string; otherwise reuse the
+        // first unused entry.  (Taking an unused entry that comes before an
+        // existing copy of the string would create a duplicate entry, and
+        // `has_room_for` counts on strings already in the pool being reused.)
+        let mut first_unused: Option<usize> = None;
+        for (index, &mut (ref st, ref mut refcount)) in
             self.strings.iter_mut().enumerate()
         {
             if *refcount == 0 {
                 debug_assert_eq!(st, "");
-                *st = string;
-                *refcount = 1;
-                return StringRef((index + 1) as i32);
-            }
-            if *st == string && *refcount < u16::MAX {
+                if first_unused.is_none() {
+                    first_unused = Some(index);
+                }
+            } else if *st == string && *refcount < u16::MAX {
                 *refcount += 1;
                 return StringRef((index + 1) as i32);
             }
+        }
+        if let Some(index) = first_unused {
+            self.strings[index] = (string, 1);
+            return StringRef((index + 1) as i32);
         }
         if self.strings.len() >= u16::MAX as usize && !self.long_string_refs {
             // TODO: If this happens, we need to rewrite all database tables
